@@ -141,7 +141,12 @@ class Body:
 class FactBase:
     def __init__(self, path):
         with open(path) as f:
-            self.d = json.load(f)
+            raw = f.read()
+        # rustc prints re-exported items through whichever dependency makes them visible in the
+        # feature configuration at hand (`sha1::digest::..` / `hmac::digest::..`); canonicalise
+        for a, b in (("hmac::digest::", "digest::"), ("sha1::digest::", "digest::"), ("md5::digest::", "digest::"), ("sha1::Digest", "digest::Digest"), ("hmac::Mac", "digest::Mac")):
+            raw = raw.replace(a, b)
+        self.d = json.loads(raw)
         self.path = path
         self.features = self.d["features"]
         self._types = self.d["types"]
